@@ -11,7 +11,8 @@ Execution world: `google.auth.default` returns anonymous credentials; `grpc.secu
 `grpc.aio.secure_channel` return an insecure channel to the loopback gRPC server; `requests.Session.request`
 re-targets the URL at the loopback HTTP server.  Nothing else of the emitted library or of api-core is touched.
 The servers answer every path with one valid reply of the method's declared response type (LRO: a done Operation
-with the packed response, paged: one page with an empty token, server streams: two messages, void: Empty).
+with the packed response, paged: one page with an empty token, server streams: two messages, void: Empty); the gRPC
+server turns to a call 50 ms after it arrived (a request that is cancelled before that was never served).
 """
 import ast
 import asyncio
@@ -145,6 +146,9 @@ def import_check(text, root, root_module):
 
 
 # ---- loopback world ------------------------------------------------------------------------------------
+LATENCY = 0.05
+
+
 class World:
     def __init__(self, pl):
         self.pl = pl
@@ -208,6 +212,9 @@ class World:
                     with w.lock:
                         w.calls.append(ent); w.inflight += 1
                     try:
+                        # a server is never instantaneous: it turns to the call LATENCY seconds after it arrived, so a
+                        # sample that does not wait for its call cannot have it served by luck (deterministic verdicts)
+                        time.sleep(LATENCY)
                         for r in req_iter:
                             ent['reqs'].append(r)
                         rpc = w.paths.get(path, (None, None))[1]
@@ -453,7 +460,7 @@ def main():
     import google.auth
     from google.auth import credentials as gac
     import requests
-    srv = grpc.server(futures.ThreadPoolExecutor(max_workers=4))
+    srv = grpc.server(futures.ThreadPoolExecutor(max_workers=8))
     srv.add_generic_rpc_handlers((w.grpc_handler(),))
     port = srv.add_insecure_port('127.0.0.1:0')
     srv.start()
